@@ -11,10 +11,13 @@ The model is `Model/ParserStmt.lean` (all statements). The statement-level theor
 
   parse_render : WF a → Legal ℓ a → parseStatement (render a ℓ) = ok a
 
-is *not yet proved* (see notes/C01.md); every statement family is tied to the implementation
-by the correspondence streams `parse.stmt` / `parse.query` only. Proved here, for all inputs:
-obligations on the dispatch table regenerated from parse_tree.go, and the token-level behaviour of
-the pieces every statement is assembled from (`ParseOptionalTokenAndInt`, integer clamping).
+is proved below ("Free spelling") for the administrative statement families — for every choice of
+keyword case, identifier quoting and gaps (whitespace runs and comments), from the first character of
+the text: `…_statement_render_parse`. Every family that contains an expression, a source list or a
+SELECT is tied to the implementation by the correspondence streams `parse.stmt` / `parse.query` only
+(see notes/C01.md). Also proved here, for all inputs: obligations on the dispatch table regenerated
+from parse_tree.go, and the token-level behaviour of the pieces every statement is assembled from
+(`ParseOptionalTokenAndInt`, integer clamping).
 -/
 namespace InfluxQL.C01
 open InfluxQL Gen
